@@ -28,6 +28,12 @@ pub enum UnionSel {
 	ByName,
 	/// by type when exactly one branch can accept the serde type at all, else by name
 	ByTypeWhenUnambiguous,
+	/// additionally by type when the branch is the plain Avro type of the very serde call made for the value
+	/// (i32 -> int, i64 -> long, f32 -> float, f64 -> double, str -> string, bool, unit; not byte slices, for which the
+	/// crate documents bytes and fixed branches as equally suitable): a valid union holds at
+	/// most one branch of each unnamed type, so that branch is determined by the type even when other branches could also
+	/// take the value with a conversion (long, float, double, decimals for an i32; an enum for a str; ...)
+	ByExactType,
 }
 #[derive(Clone, Copy, Debug, PartialEq, Eq)]
 pub enum RecordAs {
@@ -62,6 +68,9 @@ pub struct Pres {
 	pub duration_as: u8,
 	/// sequences with a known length (arrays, byte sequences) through serialize_tuple
 	pub seq_as_tuple: bool,
+	/// added to the symbol's position to form the serde `variant_index` of a unit variant: a Rust enum declares its
+	/// variants in its own order, which need not be the schema's (selection is by variant name)
+	pub unit_variant_index_offset: u32,
 	pub rng: RefCell<Rng>,
 }
 
@@ -78,16 +87,13 @@ impl Pres {
 			bytes_as_seq: false,
 			duration_as: 0,
 			seq_as_tuple: false,
+			unit_variant_index_offset: 0,
 			rng: RefCell::new(Rng::new(0)),
 		}
 	}
 	pub fn random(rng: &mut Rng) -> Pres {
 		Pres {
-			union_sel: if rng.coin() {
-				UnionSel::ByName
-			} else {
-				UnionSel::ByTypeWhenUnambiguous
-			},
+			union_sel: *rng.pick(&[UnionSel::ByName, UnionSel::ByName, UnionSel::ByTypeWhenUnambiguous, UnionSel::ByExactType]),
 			record_as: *rng.pick(&[RecordAs::Struct, RecordAs::Struct, RecordAs::Map, RecordAs::MapSplitKeyValue]),
 			field_order: *rng.pick(&[FieldOrder::Schema, FieldOrder::Schema, FieldOrder::Reversed, FieldOrder::Shuffled]),
 			omit_null_fields: *rng.pick(&[0, 0, 4, 8]),
@@ -97,12 +103,13 @@ impl Pres {
 			bytes_as_seq: false,
 			duration_as: rng.below(4) as u8,
 			seq_as_tuple: rng.chance(1, 5),
+			unit_variant_index_offset: *rng.pick(&[0u32, 0, 1, 2, 5]),
 			rng: RefCell::new(rng.fork()),
 		}
 	}
 	pub fn describe(&self) -> String {
 		format!(
-			"union={:?} record={:?} order={:?} omit_null={}/8 len_hint={} struct_name_selects={} enum_as_str={} bytes_as_seq={} duration_as={} seq_as_tuple={}",
+			"union={:?} record={:?} order={:?} omit_null={}/8 len_hint={} struct_name_selects={} enum_as_str={} bytes_as_seq={} duration_as={} seq_as_tuple={} unit_variant_index_offset={}",
 			self.union_sel,
 			self.record_as,
 			self.field_order,
@@ -112,7 +119,8 @@ impl Pres {
 			self.enum_as_str,
 			self.bytes_as_seq,
 			self.duration_as,
-			self.seq_as_tuple
+			self.seq_as_tuple,
+			self.unit_variant_index_offset
 		)
 	}
 }
@@ -330,7 +338,7 @@ impl<'a> Serialize for Present<'a> {
 					if self.p.enum_as_str {
 						ser.serialize_str(&symbols[*i])
 					} else {
-						ser.serialize_unit_variant(intern(split_fullname(name).1), *i as u32, intern(&symbols[*i]))
+						ser.serialize_unit_variant(intern(split_fullname(name).1), *i as u32 + self.p.unit_variant_index_offset, intern(&symbols[*i]))
 					}
 				}
 				_ => Err(mismatch()),
@@ -370,6 +378,15 @@ impl<'a> Serialize for Present<'a> {
 							.filter(|&&x| could_accept(&self.s.eff(x), shape))
 							.count();
 						n == 1 && could_accept(&self.s.eff(b), shape)
+					}
+					UnionSel::ByExactType => {
+						let shape = child.shape();
+						let n = branches
+							.iter()
+							.filter(|&&x| could_accept(&self.s.eff(x), shape))
+							.count();
+						(n == 1 && could_accept(&self.s.eff(b), shape))
+							|| matches!(self.s.eff(b), Eff::Null | Eff::Boolean | Eff::Int | Eff::Long | Eff::Float | Eff::Double | Eff::String)
 					}
 				};
 				if by_type {
